@@ -34,11 +34,11 @@ const (
 
 // Config of one execution.
 type Config struct {
-	Chooser  Chooser
-	MaxSteps int      // horizon; 0 = 20000
-	Focus    []string // package-path fragments whose sync objects are preemptive; empty = all
-	Race     bool     // run the happens-before race oracle
-	MapPerm  bool     // map iteration order is a Chooser decision (n<=3: all permutations, else rotations)
+	Chooser    Chooser
+	MaxSteps   int      // horizon; 0 = 20000
+	Focus      []string // package-path fragments whose sync objects are preemptive; empty = all
+	Race       bool     // run the happens-before race oracle
+	MapPerm    bool     // map iteration order is a Chooser decision (n<=3: all permutations, else rotations)
 	SelectCost bool
 }
 
@@ -67,17 +67,17 @@ type RaceInfo struct {
 
 // Result of one execution.
 type Result struct {
-	Steps      int
-	Trace      []Step
-	Deadlock   bool // quiescent with unfinished non-daemon threads
-	Blocked    []string
+	Steps         int
+	Trace         []Step
+	Deadlock      bool // quiescent with unfinished non-daemon threads
+	Blocked       []string
 	BlockedStacks []string // where the unfinished harness threads were blocked (deadlocks only)
-	Horizon    bool // MaxSteps reached (livelock suspicion)
-	Panics     []PanicInfo
-	Races      []RaceInfo
-	Threads    int
-	TraceHash  uint64 // happens-before-insensitive hash is computed by the explorer; this is the plain order hash
-	InfraError string
+	Horizon       bool     // MaxSteps reached (livelock suspicion)
+	Panics        []PanicInfo
+	Races         []RaceInfo
+	Threads       int
+	TraceHash     uint64 // happens-before-insensitive hash is computed by the explorer; this is the plain order hash
+	InfraError    string
 }
 
 type opKind int
@@ -90,35 +90,36 @@ type pendingOp struct {
 }
 
 type thread struct {
-	id      int
-	wake    chan struct{}
-	pend    *pendingOp
-	dead    bool
-	daemon  bool
-	started bool
-	exited  chan struct{}
+	id        int
+	wake      chan struct{}
+	pend      *pendingOp
+	dead      bool
+	daemon    bool
+	started   bool
+	exited    chan struct{}
 	yieldWait map[int]bool
-	vc      vclock
-	name    string
+	vc        vclock
+	name      string
 }
 
 // Exec is one controlled execution.
 type Exec struct {
-	cfg      Config
-	threads  []*thread
-	cur      *thread
-	steps    int
-	maxSteps int
-	trace    []Step
-	finished chan struct{}
-	aborting bool
-	res      Result
-	objIDs   map[interface{}]int
-	chanPins map[uintptr]interface{}
-	atomicVC vclock
-	epoch    uint64
-	chans    map[uintptr]*chanState
-	race     *raceState
+	cfg        Config
+	threads    []*thread
+	cur        *thread
+	steps      int
+	maxSteps   int
+	trace      []Step
+	finished   chan struct{}
+	aborting   bool
+	res        Result
+	objIDs     map[interface{}]int
+	chanPins   map[uintptr]interface{}
+	atomicVC   vclock
+	sysVC      vclock
+	epoch      uint64
+	chans      map[uintptr]*chanState
+	race       *raceState
 	focusCache map[uintptr]bool
 	enBuf      []*thread
 	candBuf    []*thread
@@ -137,13 +138,13 @@ func Run(cfg Config, body func()) *Result {
 	}
 	epochCounter++
 	x := &Exec{
-		cfg:      cfg,
-		maxSteps: cfg.MaxSteps,
-		finished: make(chan struct{}),
-		objIDs:   map[interface{}]int{},
-		chanPins: map[uintptr]interface{}{},
-		epoch:    epochCounter,
-		chans:    map[uintptr]*chanState{},
+		cfg:        cfg,
+		maxSteps:   cfg.MaxSteps,
+		finished:   make(chan struct{}),
+		objIDs:     map[interface{}]int{},
+		chanPins:   map[uintptr]interface{}{},
+		epoch:      epochCounter,
+		chans:      map[uintptr]*chanState{},
 		focusCache: map[uintptr]bool{},
 	}
 	if x.maxSteps == 0 {
